@@ -62,7 +62,8 @@ type genMerge struct {
 }
 
 type Exec struct {
-	missingVariants []*Obligation // structural: loops without a measure in a function that claims termination
+	curInstr        ssa.Instruction // the instruction being executed (for flow-sensitive escape reasoning)
+	missingVariants []*Obligation   // structural: loops without a measure in a function that claims termination
 	L               *Loader
 	lines           []string
 	nf              int
@@ -316,6 +317,22 @@ func (e *Exec) havocAll(st *State) {
 	type kept struct{ pc, key, srt, ref, old string }
 	var ks []kept
 	for _, o := range e.locals {
+		if len(o.escapes) > 0 {
+			// escapes somewhere: kept only while none of its escape points can have been executed
+			if e.curInstr == nil || e.curInstr.Parent() != o.fn {
+				continue
+			}
+			escaped := false
+			for _, s := range o.escapes {
+				if mayHaveRun(s, e.curInstr) {
+					escaped = true
+					break
+				}
+			}
+			if escaped {
+				continue
+			}
+		}
 		for _, k := range o.keys {
 			if srt, ok := e.keySort[k]; ok {
 				ks = append(ks, kept{o.pc, k, srt, o.ref, sel(e.heapGet(st, k, srt), o.ref)})
@@ -336,11 +353,138 @@ func (e *Exec) havocAll(st *State) {
 type localObj struct {
 	ref, pc string
 	keys    []string
+	// escapes: for an object that does escape, the instructions at which it does (empty: never escapes).
+	// Until one of them can have been executed, code outside this function cannot reach the object.
+	escapes []ssa.Instruction
+	fn      *ssa.Function
 }
 
 // registerLocal records a freshly allocated object that does not escape the function.
 func (e *Exec) registerLocal(ref, pc string, keys []string) {
 	e.locals = append(e.locals, localObj{ref: ref, pc: pc, keys: keys})
+}
+
+// registerLocalUntil records a freshly allocated object that escapes only at the given instructions.
+func (e *Exec) registerLocalUntil(ref, pc string, keys []string, fn *ssa.Function, sites []ssa.Instruction) {
+	e.locals = append(e.locals, localObj{ref: ref, pc: pc, keys: keys, escapes: sites, fn: fn})
+}
+
+// escapeSites: the instructions at which the object created by v becomes reachable for code outside this
+// function (it is passed to a call, stored, captured, converted, returned, ...). Field and element
+// addresses that are only loaded from and stored to are not escapes.
+func escapeSites(v ssa.Value, depth int) (sites []ssa.Instruction, ok bool) {
+	if depth > 4 {
+		return nil, false
+	}
+	refs := v.Referrers()
+	if refs == nil {
+		return nil, false
+	}
+	for _, r := range *refs {
+		switch x := r.(type) {
+		case *ssa.DebugRef:
+		case *ssa.FieldAddr, *ssa.IndexAddr:
+			xv := r.(ssa.Value)
+			if ir := xv.Referrers(); ir != nil {
+				for _, u := range *ir {
+					switch y := u.(type) {
+					case *ssa.UnOp, *ssa.DebugRef:
+					case *ssa.Store:
+						if y.Addr != xv {
+							sites = append(sites, u)
+						}
+					default:
+						sites = append(sites, u)
+					}
+				}
+			}
+		case *ssa.UnOp:
+			// load of the whole object (by value)
+		case *ssa.Store:
+			if x.Addr != v {
+				// stored into a field or element of another object made by this function: it escapes when
+				// (and only when) that object does
+				if base := allocBase(x.Addr); base != nil && base != v {
+					more, ok := escapeSites(base, depth+1)
+					if !ok {
+						return nil, false
+					}
+					sites = append(sites, more...)
+				} else {
+					sites = append(sites, r)
+				}
+			}
+		case *ssa.Slice:
+			// a slice of the object: escapes where the slice does
+			more, ok := escapeSites(x, depth+1)
+			if !ok {
+				return nil, false
+			}
+			sites = append(sites, more...)
+		case *ssa.Phi:
+			more, ok := escapeSites(x, depth+1)
+			if !ok {
+				return nil, false
+			}
+			sites = append(sites, more...)
+			sites = append(sites, r) // conservatively: from the merge on, the object may be the other one's alias
+		default:
+			sites = append(sites, r)
+		}
+	}
+	return sites, true
+}
+
+// allocBase: the Alloc whose field or element the address denotes (nil if it is not of that shape).
+func allocBase(a ssa.Value) ssa.Value {
+	for i := 0; i < 8; i++ {
+		switch x := a.(type) {
+		case *ssa.FieldAddr:
+			a = x.X
+		case *ssa.IndexAddr:
+			a = x.X
+		case *ssa.Alloc:
+			return x
+		default:
+			return nil
+		}
+	}
+	return nil
+}
+
+// mayHaveRun: instruction s can have been executed when control is at instruction at (same function).
+func mayHaveRun(s, at ssa.Instruction) bool {
+	sb, ab := s.Block(), at.Block()
+	if sb == nil || ab == nil || sb.Parent() != ab.Parent() {
+		return true
+	}
+	idx := func(b *ssa.BasicBlock, in ssa.Instruction) int {
+		for i, x := range b.Instrs {
+			if x == in {
+				return i
+			}
+		}
+		return -1
+	}
+	if sb == ab && idx(sb, s) <= idx(ab, at) {
+		return true
+	}
+	// is ab reachable from a successor of sb?
+	seen := map[*ssa.BasicBlock]bool{}
+	stack := append([]*ssa.BasicBlock{}, sb.Succs...)
+	for len(stack) > 0 {
+		b := stack[len(stack)-1]
+		stack = stack[:len(stack)-1]
+		if seen[b] {
+			continue
+		}
+		seen[b] = true
+		if b == ab {
+			return true
+		}
+		stack = append(stack, b.Succs...)
+	}
+	return false
 }
 
 // nonEscaping: the object created by v (MakeSlice or Alloc) is only ever indexed, sliced,
